@@ -516,7 +516,7 @@ fn client_histories() -> Vec<Vec<CEv>> {
 
 pub fn run(args: &Args) -> i32 {
     let thorough = args.tier == Tier::Thorough;
-    let hl = if thorough { 7 } else { 6 };
+    let hl = if thorough { 8 } else { 7 };
     let mut rep = Report::new("C08", args.tier, args.seed, "model_checking");
     rep.exhaustive = true;
     rep.rule = format!(
